@@ -19,7 +19,7 @@ CLAIMS = {
             "Lean proof (free-at-most-once over all histories; drop-at-most-once and life-cycle invariant over panic-free histories) + correspondence + allocator oracle + layout grid"),
     "C04": ("Proved for every reachable world of the machine (any programs, callbacks, collections, injected panics, unwinding): the count of every box is >= the number of Cc pointers to it that exist (count_never_too_low); a box with count 0 / a freed box has no pointer to it; no pointer targets a freed box. Proved for every world of every panic-free history (no unwinding step executed so far; callbacks, nested/automatic collections, resurrection, cleaners, new_cyclic all included): strong_count is EXACT, count = number of existing pointers (strong_count_exact; same induction over all operations and frame steps with both inequalities, plus two auxiliary invariants: table indices of allocation frames in range, slot-map free lists name empty slots), also stated for what the driver computes for a panic-free program (strong_count_exact_prog); a concrete reachable world after a caught panic with count > pointers shows the restriction is necessary (the property allows exactly that). Step-level theorems for clone/drop (exactly +1/-1, last owner destroys in the same step whether buffered or not, listed objects only decremented). 'Everything it solely owned is reclaimed before drop returns' is checked per run (ordered events) and by the count oracle.",
             "Lean proof (count invariant, exact in panic-free histories, by induction over all micro-steps) + correspondence + count oracle"),
-    "C05": ("Proved for every history in which no panic has been unwound: a finalizer is only ever called on an intact value in an allocated box (finalize_only_alive) and no finalize x follows drop x in the log of the whole history (no_finalize_after_drop) - from the life-cycle invariant Life (Proofs/Life*.lean, induction over every running micro-step). Step-level theorems: finalized flag set before the call on both paths, pass skips finalized members, a pass that finalized re-buffers and drops nothing (all finalizers of a set before any destructor), only a quiet pass deallocates, objects created while finalizing are born finalized, no finalizer frames without the feature. 'Only on garbage' is C01's candidate theorem. 'At most once unless re-armed' over whole histories and the statements after caught panics are checked per run (ordered F/D events, finalize-twice and neighbour-canary oracles).",
+    "C05": ("Proved for every history in which no panic has been unwound: a finalizer is only ever called on an intact value in an allocated box (finalize_only_alive) and no finalize x follows drop x in the log of the whole history (no_finalize_after_drop) - from the life-cycle invariant Life (Proofs/Life*.lean, induction over every running micro-step). Step-level theorems: finalized flag set before the call on both paths, pass skips finalized members, a pass that finalized re-buffers and drops nothing (all finalizers of a set before any destructor), only a quiet pass deallocates, objects created while finalizing are born finalized, no finalizer frames without the feature. 'Only on garbage' is C01's candidate theorem. Proved for EVERY history of the running machine by a potential argument over all micro-steps (Proofs/FinOnce.lean): the number of finalize x events is at most 1 + the number of steps that cleared the finalized flag of x (finalize_at_most_once_unless_rearmed), and only finalize_again on a pointer to x clears it (only_finalize_again_rearms). The statements after caught panics are checked per run (ordered F/D events, finalize-twice and neighbour-canary oracles).",
             "Lean proof (life-cycle invariant over panic-free histories + step theorems + T1) + correspondence + finalizer oracles"),
     "C06": ("Termination of both tracing queues for every graph (fuel = #objects), pass cap of collect proved at frame level; safety/precision after resurrection are C01/C02 on the re-buffered state. Checked per run on resurrecting finalizer scripts.",
             "Lean proof (termination, pass cap) + correspondence"),
@@ -29,8 +29,8 @@ CLAIMS = {
             "Lean theorems on upgrade semantics + correspondence + canary oracle"),
     "C09": ("Proved for every reachable world: weak_count is never below the number of existing Weak pointers, a Weak's side record is live as long as any Weak to it exists, an accessible record is live, a record is released as soon as both the allocation's hold and the last Weak are gone (WeakOk invariant by induction over all micro-steps). Step lemmas: creation, exact -1 on Weak drop, hand-over when the allocation goes first. Exactness (=) in panic-free histories checked per run (weak_count/strong_count of every table entry after every op, metaFree events, allocator).",
             "Lean proof (weak-count invariant over all micro-steps) + correspondence"),
-    "C10": ("Slot emptied before the action's script is entered on both paths; Cleanable drop only drops a Weak; clean after destruction is a no-op. 'Exactly once by the time the Cleaner is gone' checked per run (ordered action events).",
-            "Lean step theorems + correspondence"),
+    "C10": ("Proved for every history of the running machine (Proofs/ActOnce.lean, induction over all micro-steps): EACH REGISTERED CLEANING ACTION RUNS AT MOST ONCE (action_at_most_once: identifiers are handed out from a counter, stored actions have pairwise distinct identifiers - invariant AOk - and an action is taken out of its slot before it runs, both in Cleanable::clean and in the map's drop glue); an action that ran is in no slot map any more and its identifier is never reused (action_ran_is_gone), so clean() afterwards finds nothing. Step lemmas: slot emptied before the action's script is entered on both paths; Cleanable drop only drops a Weak; clean after destruction is a no-op. 'Exactly once by the time the Cleaner is gone' (panic-free) and 'actions never reach a dropped object' are checked per run (ordered action events, cap-dead / action-early oracles).",
+            "Lean proof (action-at-most-once over all histories of the running machine) + correspondence + action oracles"),
     "C11": ("Proved for every reachable world: allocated_bytes() equals the total size of the boxes that exist (BytesOk), buffered_objects_count() is the length of a duplicate-free buffer whose members are exactly the PossibleCycles-marked live boxes (buffer_exact, from Inv). Step lemmas: add_to_list/remove_from_list exact size change; clone leaves the buffer; executions +1 per started collection. Checked per run by model-independent oracles (allocator sum vs allocated_bytes, buffer walk vs cached size, link integrity, marks).",
             "Lean proof (bytes and buffer invariants over all micro-steps) + correspondence + buffer-walk oracle"),
     "C12": ("is_tracing characterisation, collect clears finalizing/dropping (trace always sees is_tracing), nested collect and auto-collect are no-ops while collecting, try_unwrap Err / finalize_again panic in callbacks, and (from I6, proved globally) is_tracing false when idle.",
